@@ -234,9 +234,10 @@ theorem fpxr_runCalls_graft : ∀ (cs : List (Nat × Nat × Nat)) {f : Forest}, 
     ∃ S', S'.handle = nd ∧
       (f.runCalls (cs.map nsCallOf)).1.roots = mapAtList nd (fun _ => S') f.roots ∧
       (f.runCalls (cs.map nsCallOf)).1.get? nd = some S' ∧
-      (handles S').filter (· < b) = (handles S).filter (· < b)
+      (handles S').filter (· < b) = (handles S).filter (· < b) ∧
+      ∀ cs' : List (Nat × Nat × Nat), eraseWith cs' S' = eraseWith (cs ++ cs') S
   | [], f, hi, nd, S, hg, _, b, _ => by
-    refine ⟨S, Fmap.findList?_handle nd _ _ hg, ?_, hg, rfl⟩
+    refine ⟨S, Fmap.findList?_handle nd _ _ hg, ?_, hg, rfl, fun _ => rfl⟩
     exact (graftList_self nd S f.roots hi.nodup hg).symm
   | c :: cs, f, hi, nd, S, hg, hc, b, hb => by
     obtain ⟨he, hin⟩ := hc c (by simp)
@@ -260,15 +261,18 @@ theorem fpxr_runCalls_graft : ∀ (cs : List (Nat × Nat × Nat)) {f : Forest}, 
       have : x ∈ (handles S).filter (· < f.next) := List.mem_filter.mpr ⟨hx, by simpa using hx'⟩
       rw [← h1] at this
       exact (List.mem_filter.mp this).1
-    obtain ⟨S', h1, h2, h3, h4⟩ := fpxr_runCalls_graft cs hi1 hg1
+    obtain ⟨S', h1, h2, h3, h4, h5⟩ := fpxr_runCalls_graft cs hi1 hg1
       (fun c' h' => ⟨by rw [hel]; exact (hc c' (by simp [h'])).1, hsub _ (hc c' (by simp [h'])).2⟩)
       b (Nat.le_trans hb hnext)
-    refine ⟨S', h1, ?_, ?_, ?_⟩
+    refine ⟨S', h1, ?_, ?_, ?_, ?_⟩
     · rw [List.map_cons, fpxr_runCalls_cons hi c _ he, h2, hroots1]
       exact graftList_graftList nd S1 S' hS1h f.roots
     · rw [List.map_cons, fpxr_runCalls_cons hi c _ he]; exact h3
     · rw [h4]
       exact handles_nsEdit_filter c.1 c.2.1 c.2.2 f.next b hb S
+    · intro cs'
+      rw [h5 cs']
+      exact eraseWith_nsEdit (cs ++ cs') c.1 c.2.1 c.2.2 f.next S (Fmap.findList?_nodup nd f.roots S hi.nodup hg)
 
 end Forest
 end XotModel
